@@ -802,17 +802,47 @@ def nontrivial(c):
     return "atmp " in c
 
 
+_SHRINK_BUDGET = [40]
+
+
 def shrink(c):
-    """candidates: the script with one operation removed (later ops first), or one unused definition removed"""
+    """candidates: the script with a block of operations removed (halves, quarters, then single operations, later ones
+    first); unused definitions go with them.  Every candidate costs a fresh node, so the total number of rounds is bounded."""
+    if _SHRINK_BUDGET[0] <= 0:
+        return []
+    _SHRINK_BUDGET[0] -= 1
     ops = [o.strip() for o in c.split(";") if o.strip()]
+    head = [o for o in ops if o.startswith("cfg ")]
+    body = [o for o in ops if not o.startswith("cfg ")]
+    idx = [i for i, o in enumerate(body) if not o.startswith("tx ")]
+
+    def without(drop):
+        keep = [o for i, o in enumerate(body) if i not in drop]
+        # drop definitions nothing refers to any more
+        changed = True
+        while changed:
+            changed = False
+            for j, o in enumerate(keep):
+                if o.startswith("tx "):
+                    name = o.split(" ")[1]
+                    if not any(re.search(r"(^|[ ,])%s($|[ :])" % re.escape(name), x) for k, x in enumerate(keep) if k != j):
+                        del keep[j]
+                        changed = True
+                        break
+        return " ; ".join(head + keep)
+
     cands = []
-    for i in range(len(ops) - 1, -1, -1):
-        if ops[i].startswith("cfg "):
-            continue
-        if ops[i].startswith("tx "):
-            name = ops[i].split(" ")[1]
-            used = any(re.search(r"(^|[ ,])%s($|[ :])" % re.escape(name), o) for j, o in enumerate(ops) if j != i)
-            if used:
-                continue
-        cands.append(" ; ".join(ops[:i] + ops[i + 1:]))
-    return cands
+    n = len(idx)
+    for parts in (2, 4):
+        size = max(1, n // parts)
+        for start in range(n - size, -1, -size):
+            cands.append(without(set(idx[start:start + size])))
+    for i in reversed(idx):
+        cands.append(without({i}))
+    seen = set()
+    out = []
+    for x in cands:
+        if x != c and x not in seen and "atmp" in x or "pkg" in x:
+            seen.add(x)
+            out.append(x)
+    return out[:14]
